@@ -280,17 +280,12 @@ func (r *replicator) processHash(ctx context.Context, item processItem) ([]cid.C
 	cprogress := make(chan iface.IPFSLogEntry)
 	defer close(cprogress)
 	go func() {
-		var entry iface.IPFSLogEntry
-		for {
-
-			select {
-			case <-ctx.Done():
-				return
-			case entry = <-cprogress:
-			}
-
+		// keep receiving until the channel is closed (when the fetch has
+		// returned): the fetcher blocks on every entry it reports, so leaving
+		// early, e.g. when ctx is cancelled, would leave it stuck for ever
+		for entry := range cprogress {
 			if entry == nil {
-				return
+				continue
 			}
 
 			if err := r.emitters.evtLoadProgress.Emit(NewEventLoadProgress(entry)); err != nil {
